@@ -22,6 +22,20 @@ def seq_terms(e: ast.AST) -> List[str]:
         return out
     if isinstance(e, ast.BinOp) and isinstance(e.op, ast.Add):
         return seq_terms(e.left) + seq_terms(e.right)
+    if isinstance(e, (ast.List, ast.Tuple)) and e.elts and any(isinstance(x, ast.Starred) for x in e.elts):
+        out2: List[str] = []
+        run: List[str] = []
+        for x in e.elts:
+            if isinstance(x, ast.Starred):
+                if run:
+                    out2.append("[" + ", ".join(run) + "]")
+                    run = []
+                out2 += seq_terms(x.value)
+            else:
+                run.append(norm(x))
+        if run:
+            out2.append("[" + ", ".join(run) + "]")
+        return out2
     if isinstance(e, ast.List):
         return ["[" + ", ".join(norm(x) for x in e.elts) + "]"] if e.elts else []
     return [norm(e)]
